@@ -4,6 +4,12 @@
      key = mix (dataseed, g) % keyrange  (cmpid 1: minus keyrange / 2, stored as int32).
      cmpid 0: unsigned key ascending   1: signed key   2: unsigned key descending   3: key mod 5 (many ties)
            4: memcmp over the whole element
+     comparison functions using the full range of int (cmpid >= 5: key = signed 32-bit, centred like cmpid 1):
+           5: saturated difference of the 64-bit keys wide (key) (spread over +-2^62, identity for |key| < 256): INT_MIN / INT_MAX
+              for keys further apart than INT_MAX, the exact (small) difference otherwise
+           6: difference of the int keys (exact for |key| <= 2^30: any magnitude up to INT_MAX; clamped beyond)
+           7: sign times 0x40000000 (low bits zero)   8: INT_MIN for every "less", INT_MAX for every "greater"
+           9: descending order, INT_MIN for "less" (key greater), 1 for "greater"
    stdout per run:  RUN <i> rc=<code> steps=<n>
                     OUT <rank> <hex of the local array after the call | -> <send-buffer violations>
                     TRACE-BEGIN / trace lines / TRACE-END
@@ -16,6 +22,7 @@
 #include <simmpi.h>
 #include <signal.h>
 #include <unistd.h>
+#include <limits.h>
 
 #define MAXP 64
 #define RUN_SECONDS 20          /* wall-clock limit per run: a rank spinning without MPI calls is invisible to simmpi */
@@ -36,7 +43,26 @@ static int cmp_s (const void *a, const void *b) { int x = (int) ukey (a), y = (i
 static int cmp_d (const void *a, const void *b) { unsigned x = ukey (a), y = ukey (b); return x > y ? -1 : x < y; }
 static int cmp_m (const void *a, const void *b) { unsigned x = ukey (a) % 5, y = ukey (b) % 5; return (int) x - (int) y; }
 static int cmp_b (const void *a, const void *b) { return memcmp (a, b, g_size); }
-static int (*cmps[]) (const void *, const void *) = { cmp_u, cmp_s, cmp_d, cmp_m, cmp_b };
+/* 64-bit key: strictly monotone in the signed 32-bit key, identity near 0, up to about 2^62 in magnitude */
+static long long wide (int x) { long long a = x < 0 ? -(long long) x : (long long) x; return (long long) x * (1 + ((a >> 8) << 8)); }
+static int cmp_sat (const void *a, const void *b)
+{
+  long long x = wide ((int) ukey (a)), y = wide ((int) ukey (b));
+  if (x < y) { unsigned long long d = (unsigned long long) y - (unsigned long long) x; return d > (unsigned long long) INT_MAX ? INT_MIN : -(int) d; }
+  if (x > y) { unsigned long long d = (unsigned long long) x - (unsigned long long) y; return d > (unsigned long long) INT_MAX ? INT_MAX : (int) d; }
+  return 0;
+}
+/* difference of the int keys: exact for |key| <= 2^30 (what the generator produces); clamped so that the function is defined on any bytes */
+static int cmp_diff (const void *a, const void *b)
+{
+  long long d = (long long) (int) ukey (a) - (long long) (int) ukey (b);
+  return d < (long long) INT_MIN ? INT_MIN : d > (long long) INT_MAX ? INT_MAX : (int) d;
+}
+static int cmp_big (const void *a, const void *b) { int x = (int) ukey (a), y = (int) ukey (b); return x < y ? -0x40000000 : x > y ? 0x40000000 : 0; }
+static int cmp_min (const void *a, const void *b) { int x = (int) ukey (a), y = (int) ukey (b); return x < y ? INT_MIN : x > y ? INT_MAX : 0; }
+static int cmp_dmin (const void *a, const void *b) { int x = (int) ukey (a), y = (int) ukey (b); return x > y ? INT_MIN : x < y ? 1 : 0; }
+static int (*cmps[]) (const void *, const void *) = { cmp_u, cmp_s, cmp_d, cmp_m, cmp_b, cmp_sat, cmp_diff, cmp_big, cmp_min, cmp_dmin };
+#define NCMP ((int) (sizeof cmps / sizeof cmps[0]))
 
 /* ---- send-buffer monitor ---- */
 typedef struct { int used, rank; MPI_Request req; const void *buf; int len; unsigned char *copy; } track_t;
@@ -98,7 +124,7 @@ int __wrap_MPI_Waitall (int n, MPI_Request *reqs, MPI_Status *st)
 static void fill_elem (arg_t *a, unsigned char *e, unsigned g)
 {
   unsigned k = mix (a->dseed, g, 0) % a->keyrange;
-  if (a->cmpid == 1) k = (unsigned) ((int) k - (int) (a->keyrange / 2));
+  if (a->cmpid == 1 || a->cmpid >= 5) k = k - a->keyrange / 2;     /* as int32: centred around 0 */
   memcpy (e, &k, 4);
   for (int j = 4; j < a->size; ++j) e[j] = (unsigned char) (mix (a->dseed, g, (unsigned) j) & 0xff);
 }
@@ -131,7 +157,7 @@ int main (void)
   while (fgets (line, sizeof line, stdin)) {
     int P, adv, pos = 0, k; unsigned long seed; arg_t a;
     if (sscanf (line, "%d %lu %d %d %d %u %u%n", &P, &seed, &adv, &a.size, &a.cmpid, &a.dseed, &a.keyrange, &pos) < 7) continue;
-    if (P < 1 || P > MAXP || a.size < 4 || a.cmpid < 0 || a.cmpid > 4 || a.keyrange < 1) continue;
+    if (P < 1 || P > MAXP || a.size < 4 || a.cmpid < 0 || a.cmpid >= NCMP || a.keyrange < 1) continue;
     for (int q = 0; q < P; ++q) { if (sscanf (line + pos, "%d%n", &a.counts[q], &k) < 1) { a.counts[q] = 0; } else pos += k; }
     g_size = (size_t) a.size;
     a.out = (unsigned char **) calloc ((size_t) P, sizeof (unsigned char *));
